@@ -1002,7 +1002,13 @@ class CxxEvaluator(Evaluator):
         return conv(Evaluator.call(self, func, this, args), func.get("ret"))
 
     def _resolve_virtual(self, cls, fn, nargs, depth=0):
-        cands = [f for f in self.prog.funcs.values() if f.get("cls") == cls and f["n"] == fn and len(f["params"]) == nargs and f.get("body") is not None]
+        idx = self.prog.__dict__.get("_method_index")
+        if idx is None:
+            idx = self.prog.__dict__["_method_index"] = {}
+            for f in self.prog.funcs.values():
+                if f.get("body") is not None and f.get("cls"):
+                    idx.setdefault((f["cls"], f["n"], len(f["params"])), []).append(f)
+        cands = idx.get((cls, fn, nargs), [])
         if len(cands) == 1:
             return cands[0]
         if len(cands) > 1:
